@@ -51,7 +51,7 @@ LI = {
  'C02': "34 shared multi-word helpers of bid_internal.rs, each exact for all inputs",
  'C03': "all 20 predicates of bid128_compare.rs = m_cmp for all operand words and every status word, result and flags",
  'C06': "bid128_from_int32 / from_uint32 / from_int64 / from_uint64 = m_from_int for every integer; thorough tier: bid128_to_int32_rnint and bid128_to_int32_rninta = m_to_int for every pattern and status word (result and flags; complete theorems, 3-4 minutes each)",
- 'C08': "bid128_round_integral_zero / _negative / _positive / _nearest_even / _nearest_away = the model's round-to-integral (m_rint) for every 128-bit pattern and every status word, result and flags; thorough tier: partial theorems for bid128_round_integral_exact and bid128_nearbyint (special, zero, exponent >= 0 and exponent <= -35 operands)",
+ 'C08': "bid128_round_integral_zero / _negative / _positive / _nearest_even / _nearest_away = the model's round-to-integral (m_rint) for every 128-bit pattern and every status word, result and flags; thorough tier: bid128_nearbyint = m_rint for every pattern, mode and status word (complete, about 6 minutes) and a partial theorem for bid128_round_integral_exact (special, zero, exponent >= 0 and exponent <= -35 operands)",
  'C09': "bid128_same_quantum, bid128_quantexp, bid128_llquantexp, bid128_quantum = the model for all patterns",
  'C10': "34 shared multi-word helpers of bid_internal.rs, each exact for all inputs",
  'C11': "the pack routine bid_get_BID128 with handle_UF_128 (= the model's round-and-pack for every sign, coefficient < 10^34, i32 exponent, mode and incoming status word), bid128_scalbn, bid128_ldexp, bid128_scalbln (= m_scaleb for every pattern, n, mode, status word), bid128_frexp (= m_frexp)",
